@@ -464,6 +464,14 @@ pub fn run_parent(info: &PropInfo, tier: Tier, seed: u64, workers: u32) -> Paren
             exit = 2;
         }
     }
+    // void cases (a precondition owned by another property failed): too many => inconclusive
+    let void: u64 = merged.labels.iter().filter(|(k, _)| k.starts_with("void:")).map(|(_, v)| *v).sum();
+    if merged.evaluations > 0 && void * 2 > merged.evaluations {
+        println!("INCONCLUSIVE property={} {} of {} cases were void (a precondition checked by another property failed)", info.id, void, merged.evaluations);
+        if exit == 0 {
+            exit = 2;
+        }
+    }
     if merged.samples.is_empty() {
         merged.samples.push(json!("no non-trivial case was produced in this run"));
     }
